@@ -1365,6 +1365,8 @@ class ParseTranslator:
       x = year_detection(section_list)  etc.            the translated detectors
       for v in found: self.count_X[v] += 1              a counter feed: recorded when `found` is a result of a
       self._update_counter_len_indexed(self.count_X, found)   translated detector, skipped when it is a
+      self._helper(self.count_X, found)                 (a private method of the class whose body is the loop
+                                                        `for x in items: counter[x] += 1` over its own parameters)
                                                         result of an external stage
       prince_evaluation(self.count_prince, section_list)      skipped (reads the section list)
       is_supported, base_structure = base_structure_creation(section_list)    the observation point
@@ -1511,7 +1513,10 @@ class ParseTranslator:
         return head + sig + out
 
     def counter_feed(self, s):
-        """-> (counter attribute, variable) for the two statement forms that feed a counter, else (None, None)"""
+        """-> (counter attribute, variable) for the statement forms that feed a counter, else (None, None):
+        `for x in found: self.count_X[x] += 1`, self._update_counter_len_indexed(self.count_X, found), and
+        self.<helper>(self.count_X, found) for a private helper of the class whose body is that loop over its own
+        parameters (`for x in items: counter[x] += 1`, with or without @staticmethod)"""
         if isinstance(s, ast.For) and not s.orelse and isinstance(s.target, ast.Name) and isinstance(s.iter, ast.Name) \
                 and len(s.body) == 1 and isinstance(s.body[0], ast.AugAssign) and isinstance(s.body[0].op, ast.Add):
             b = s.body[0]
@@ -1524,7 +1529,43 @@ class ParseTranslator:
             if self.is_self_attr(c.func, "_update_counter_len_indexed") and len(c.args) == 2 and not c.keywords \
                     and self.is_self_attr(c.args[0]) and isinstance(c.args[1], ast.Name):
                 return c.args[0].attr, c.args[1].id
+            if self.is_self_attr(c.func) and self.counting_helper(c.func.attr) and len(c.args) == 2 and not c.keywords \
+                    and self.is_self_attr(c.args[0]) and isinstance(c.args[1], ast.Name):
+                return c.args[0].attr, c.args[1].id
         return None, None
+
+    def counting_helper(self, name):
+        """is `name` a method of the class of the form
+            [@staticmethod] def name([self,] counter, items): ["doc"]; for x in items: counter[x] += 1"""
+        fn = getattr(self, "class_defs", {}).get(name)
+        if not isinstance(fn, ast.FunctionDef) or name in ("parse", "_update_counter_len_indexed"):
+            return False
+        a = fn.args
+        static = len(fn.decorator_list) == 1 and isinstance(fn.decorator_list[0], ast.Name) \
+            and fn.decorator_list[0].id == "staticmethod"
+        if (fn.decorator_list and not static) or a.vararg or a.kwarg or a.kwonlyargs or a.posonlyargs or a.defaults \
+                or fn.returns or any(x.annotation for x in a.args):
+            return False
+        names = [x.arg for x in a.args]
+        if not static:
+            if not names or names[0] != "self":
+                return False
+            names = names[1:]
+        if len(names) != 2 or len(set(names)) != 2:
+            return False
+        body = [st for st in fn.body if not (isinstance(st, ast.Expr) and isinstance(st.value, ast.Constant)
+                                             and type(st.value.value) is str)]
+        if len(body) != 1:
+            return False
+        f = body[0]
+        if not (isinstance(f, ast.For) and not f.orelse and isinstance(f.target, ast.Name) and isinstance(f.iter, ast.Name)
+                and f.iter.id == names[1] and f.target.id not in names and len(f.body) == 1):
+            return False
+        b = f.body[0]
+        return isinstance(b, ast.AugAssign) and isinstance(b.op, ast.Add) and isinstance(b.value, ast.Constant) \
+            and type(b.value.value) is int and b.value.value == 1 and isinstance(b.target, ast.Subscript) \
+            and isinstance(b.target.value, ast.Name) and b.target.value.id == names[0] \
+            and isinstance(b.target.slice, ast.Name) and b.target.slice.id == f.target.id
 
 
 # ------------------------------------------------------------------ output
@@ -1586,7 +1627,9 @@ def render(repo=None):
     fn = defs.get("parse")
     if not isinstance(fn, ast.FunctionDef):
         raise TranslateError("%s: %s.parse not found" % (path, PARSER_CLASS))
-    parse_text = ParseTranslator(path, PARSER, fn, done).translate()
+    pt = ParseTranslator(path, PARSER, fn, done)
+    pt.class_defs = defs
+    parse_text = pt.translate()
     return HEAD + "\n".join(parts) + "\n" + PARSE_HEAD + parse_text + "\nEnd DetectGen.\n"
 
 
